@@ -264,7 +264,7 @@ def dry_task(task, wdir, res):
 
 def run(run):
     quick = run.tier == "quick"
-    reps = 1 if quick else 10
+    reps = 1 if quick else 4
     dry = [{"name": f"dry-{t}-{r}", "tmpl": t, "seed": run.rng("h", t, r).getrandbits(40)} for t in C.TEMPLATES for r in range(reps)]
     run.parallel(dry_task, dry)
     plans = [json.loads(x) for x in run.result.sets.pop("plan", set())]
@@ -283,7 +283,7 @@ def run(run):
                        "(optional payload fields legitimately have no column file)"]
     run.parallel(history_task, tasks)
     otasks = []
-    for rep in range(1 if quick else 6):
+    for rep in range(1 if quick else 4):
         for side, pts in (("handover", ["ho.locked", "ho.before_save", "ho.saved"]),
                           ("flush", ["fr.before_index", "idx.tmp_written", "idx.renamed", "fr.index_added", "fl.verified", "fl.published"])):
             for pnt in pts:
